@@ -202,7 +202,7 @@ func VerifHarness_C19_Group() {
 	var wantNames []string
 	for i := 0; i < n; i++ {
 		name := []string{"A", "B", "C", "D"}[i]
-		switch nondetChoice("spec.kind", 4) {
+		switch nondetChoice("spec.kind", 5) {
 		case 0: // plain struct
 			specs = append(specs, &ast.TypeSpec{Name: &ast.Ident{Name: name}, Type: &ast.StructType{Fields: &ast.FieldList{}}})
 		case 1: // unmarked interface with an ordinary doc comment
@@ -213,17 +213,32 @@ func VerifHarness_C19_Group() {
 				Type: &ast.InterfaceType{Methods: &ast.FieldList{List: []*ast.Field{{Names: []*ast.Ident{{Name: "Convert"}}, Type: &ast.FuncType{}, Doc: &ast.CommentGroup{List: []*ast.Comment{{Text: "// goverter:ignore X"}}}}}}}})
 			marked++
 			wantNames = append(wantNames, name)
-		default: // marked struct: not allowed
+		case 3: // marked struct: not allowed
 			specs = append(specs, &ast.TypeSpec{Name: &ast.Ident{Name: name}, Doc: &ast.CommentGroup{List: []*ast.Comment{{Text: "// goverter:converter"}}}, Type: &ast.StructType{Fields: &ast.FieldList{}}})
+			markedStruct = true
+		default: // marked interface with an embedded interface / a union element (an entry without a name): a diagnostic
+			var elem ast.Expr = &ast.Ident{Name: "Base"}
+			if i%2 == 1 {
+				elem = &ast.BinaryExpr{X: &ast.UnaryExpr{Op: token.TILDE, X: &ast.Ident{Name: "int"}}, Op: token.OR, Y: &ast.Ident{Name: "string"}}
+			}
+			specs = append(specs, &ast.TypeSpec{Name: &ast.Ident{Name: name}, Doc: &ast.CommentGroup{List: []*ast.Comment{{Text: "// goverter:converter"}}},
+				Type: &ast.InterfaceType{Methods: &ast.FieldList{List: []*ast.Field{{Names: []*ast.Ident{{Name: "Convert"}}, Type: &ast.FuncType{}}, {Type: elem}}}}})
 			markedStruct = true
 		}
 	}
 	decl := &ast.GenDecl{Tok: token.TYPE, Lparen: 1, Specs: specs}
+	// the group may carry a doc comment of its own (prose, no marker): the specs are still looked at one by one
+	switch nondetChoice("group.doc", 3) {
+	case 1:
+		decl.Doc = &ast.CommentGroup{List: []*ast.Comment{{Text: "// The converters of this package."}}}
+	case 2:
+		decl.Doc = &ast.CommentGroup{List: []*ast.Comment{{Text: "// Types of this package."}, {Text: "//"}, {Text: "// See the goverter documentation."}}}
+	}
 	convs, err := parseGenDecl(fset, pkg, decl)
 	verifReach("group")
 	if markedStruct {
 		// reported unless the scan legitimately stopped at an earlier error: any error is fine, silence is not
-		verifAssert("marker-on-a-struct-in-a-group-is-an-error", err != nil)
+		verifAssert("marker-on-a-struct-or-an-interface-with-unnamed-entries-is-an-error", err != nil)
 		return
 	}
 	verifAssert("group-accepted", err == nil)
